@@ -19,7 +19,7 @@ let block_of s =
      S skip | C call | R l e | A l e | D l e ign | Q a b | I n (l e)*n th hasel el
      L isfor n (l e)*n m (l e)*m body hasel el | T body hasel el n handler*n | F body fexc fnorm
      B break | K continue | X return | Z raise ;  handler = hastg tl te body
-   answer: "<wf> <edges_at_end> <nblocks> <stat>;<stat>;..." in creation order,
+   answer: "<wf> <graph_ok> <nblocks> <stat>;<stat>;..." in creation order,
            stat = label:kind:entry:block:class   (class N/M/B, X = block detached)  or NONE *)
 let parse_prog (toks : string list) : stmt =
   let r = ref toks in
@@ -72,7 +72,7 @@ let cfg_cmd fx ne args prog =
           | None -> "X" | Some DefNull -> "N" | Some MaybeNull -> "M" | Some Bound -> "B" in
         Printf.sprintf "%d:%s:%d:%d:%s" (int_of_nat l) kind (int_of_nat e) bi c in
       let items = List.map one (List.rev st.sts) in
-      String.concat " " [ string_of_bool (wf false body); string_of_bool (edges_at_end st);
+      String.concat " " [ string_of_bool (wf false body); string_of_bool (graph_ok ne st);
                           string_of_int (int_of_nat st.nb);
                           if items = [] then "-" else String.concat ";" items ]
 
